@@ -73,7 +73,11 @@ type reqInitCaller struct{}
 func (caller reqInitCaller) Call(s *slip.Scope, args slip.List, depth int) slip.Object {
 	obj := s.Get("self").(*flavors.Instance)
 	if 0 < len(args) {
-		args = args[0].(slip.List)
+		list, ok := args[0].(slip.List)
+		if !ok {
+			slip.TypePanic(s, depth, "initargs", args[0], "list")
+		}
+		args = list
 	}
 	req := http.Request{}
 	obj.Any = &req
